@@ -1,17 +1,17 @@
 CONSTANTS
-  Clients <- MCClients
-  Addr <- MCAddr
-  SentBits = {0, 16, 24, 32}
-  Scopes = {0, 8, 20, 24, 32}
+  Clients <- AudAllowClients
+  Addr <- AudAddr
+  SentBits = {0, 24, 32}
+  Scopes = {0, 16, 24}
   FwdMax = 24
   Floor = 24
-  Enabled = FALSE
+  Enabled = TRUE
   MaxSteps = 6
   Fwd6Max = 56
   Floor6 = 48
-  Allow = {}
-  Mapped = {}
-  CDs = {FALSE}
+  Allow <- AudAllow
+  Mapped = {2, 3, 4}
+  CDs = {FALSE, TRUE}
   UpCd = {"echo"}
   Dnssec = FALSE
   Bug = "none"
@@ -19,5 +19,4 @@ INIT Init
 NEXT Next
 
 INVARIANTS TypeOK EcsLeavesOnlyIfAllowed NeverTooSpecific
-
 CHECK_DEADLOCK FALSE
